@@ -34,7 +34,7 @@ const (
 
 // API keys by name (the names used in scripts, journals and the TLA+ modules).
 var ApiKeys = map[string]int16{"Produce": 0, "Fetch": 1, "ListOffsets": 2, "Metadata": 3, "OffsetCommit": 8, "OffsetFetch": 9,
-	"FindCoordinator": 10, "JoinGroup": 11, "Heartbeat": 12, "LeaveGroup": 13, "SyncGroup": 14, "ApiVersions": 18,
+	"FindCoordinator": 10, "JoinGroup": 11, "DescribeGroups": 15, "ListGroups": 16, "Heartbeat": 12, "LeaveGroup": 13, "SyncGroup": 14, "ApiVersions": 18,
 	"SaslHandshake": 17, "SaslAuthenticate": 36, "CreateTopics": 19, "DeleteTopics": 20, "InitProducerId": 22, "AddPartitionsToTxn": 24, "AddOffsetsToTxn": 25, "EndTxn": 26}
 
 var apiNames = func() map[int16]string {
@@ -46,7 +46,7 @@ var apiNames = func() map[int16]string {
 }()
 
 // highest version of each API the fake cluster (with this package's patches) can answer
-var servable = map[int16]int16{0: 8, 1: 11, 2: 5, 3: 8, 8: 7, 9: 5, 10: 2, 11: 2, 12: 2, 13: 2, 14: 2, 17: 1, 18: 0, 36: 1, 19: 4, 20: 3, 22: 1, 24: 2, 25: 2, 26: 2}
+var servable = map[int16]int16{0: 8, 1: 11, 2: 5, 3: 8, 8: 7, 9: 5, 10: 2, 11: 2, 12: 2, 13: 2, 14: 2, 15: 4, 16: 2, 17: 1, 18: 0, 36: 1, 19: 4, 20: 3, 22: 1, 24: 2, 25: 2, 26: 2}
 
 // ClientRanges reports what the library implements (protocol.ApiKey.MinVersion/MaxVersion).
 func ClientRanges() map[string][]int {
@@ -87,7 +87,9 @@ type run struct {
 	moveReq  int // number of metadata requests that had arrived when the cluster last changed
 	pidSeq   int64
 	dialHook func()
-	anyOp    bool       // a call was made: the pool exists
+	anyOp    bool // a call was made: the pool exists
+	listOp   int  // the listgroups call in progress
+	listSeen int
 	dmu      sync.Mutex // serialises dials with the tear-down of the scenario
 	down     bool
 }
@@ -119,6 +121,8 @@ func (r *run) populate(t string, p *fakekafka.Partition) {
 func (r *run) versionsFor(b int) map[int16]fakekafka.VersionRange {
 	vs := fakekafka.ExtDefaultVersions()
 	vs[fakekafka.FindCoordinator] = fakekafka.VersionRange{Min: 0, Max: 2}
+	vs[15] = fakekafka.VersionRange{Min: 0, Max: 4}
+	vs[16] = fakekafka.VersionRange{Min: 0, Max: 2}
 	vs[22] = fakekafka.VersionRange{Min: 0, Max: 1}
 	vs[24] = fakekafka.VersionRange{Min: 0, Max: 2}
 	vs[26] = fakekafka.VersionRange{Min: 0, Max: 2}
@@ -334,12 +338,17 @@ func tagNum(s, prefix string) int {
 	if !strings.HasPrefix(s, prefix) {
 		return 0
 	}
-	n, _ := strconv.Atoi(strings.TrimPrefix(s, prefix))
+	h := strings.TrimPrefix(s, prefix)
+	k := 0
+	for k < len(h) && h[k] >= '0' && h[k] <= '9' {
+		k++
+	}
+	n, _ := strconv.Atoi(h[:k])
 	return n
 }
 
 // first version of each API that uses the flexible encoding (compact strings, tagged fields)
-var flexibleFrom = map[int16]int16{8: 8, 9: 6, 10: 3, 11: 6, 12: 4, 13: 4, 14: 4, 19: 5, 20: 4, 22: 2, 24: 3, 25: 3, 26: 3}
+var flexibleFrom = map[int16]int16{8: 8, 9: 6, 10: 3, 11: 6, 12: 4, 13: 4, 14: 4, 15: 5, 16: 3, 19: 5, 20: 4, 22: 2, 24: 3, 25: 3, 26: 3}
 
 // compactStr reads the first compact string of a flexible request body (after the header's tag buffer).
 func compactStr(b []byte, skip int) string {
@@ -356,7 +365,7 @@ func compactStr(b []byte, skip int) string {
 
 // classify finds the application call (o) and leg a request belongs to, from its content.
 func classify(req *fakekafka.Request) (o, leg int, info trace.Event) {
-	info = trace.Event{"t": "", "p": 0, "key": "", "keytype": 0}
+	info = trace.Event{"t": "", "p": 0, "key": "", "keytype": 0, "parts": []interface{}{}, "groups": []interface{}{}}
 	rd := kwire.R{B: req.Body}
 	v := req.Version
 	if from, ok := flexibleFrom[req.ApiKey]; ok && v >= from {
@@ -409,6 +418,7 @@ func classify(req *fakekafka.Request) (o, leg int, info trace.Event) {
 				}
 			}
 		}
+		info["parts"] = []interface{}{map[string]interface{}{"t": info["t"], "p": info["p"]}}
 		return o, 1, info
 	case fakekafka.Fetch:
 		rd.I32()
@@ -438,26 +448,54 @@ func classify(req *fakekafka.Request) (o, leg int, info trace.Event) {
 				o = int(rd.I32()) - fetchBytes
 			}
 		}
+		info["parts"] = []interface{}{map[string]interface{}{"t": info["t"], "p": info["p"]}}
 		return o, 1, info
 	case fakekafka.ListOffsets:
 		rd.I32()
 		if v >= 2 {
 			rd.I8()
 		}
-		if rd.ArrayLen() > 0 {
-			info["t"] = rd.Str()
-			if rd.ArrayLen() > 0 {
-				info["p"] = int(rd.I32())
+		// every partition the request names (a request the Transport routes carries exactly one)
+		parts := []interface{}{}
+		nt := rd.ArrayLen()
+		for i := 0; i < nt && rd.Err == nil; i++ {
+			t := rd.Str()
+			np := rd.ArrayLen()
+			for j := 0; j < np && rd.Err == nil; j++ {
+				p := int(rd.I32())
 				if v >= 4 {
 					rd.I32()
 				}
 				ts := rd.I64()
-				if ts > 0 {
-					o = int((tsBase + 1_000_000_000 - ts) % 1000)
+				if v == 0 {
+					rd.I32()
 				}
+				if len(parts) == 0 {
+					info["t"], info["p"] = t, p
+					if ts > 0 {
+						o = int((tsBase + 1_000_000_000 - ts) % 1000)
+					}
+				}
+				parts = append(parts, map[string]interface{}{"t": t, "p": p})
 			}
 		}
+		info["parts"] = parts
 		return o, 1, info
+	case 15:
+		groups := []interface{}{}
+		n := rd.ArrayLen()
+		for i := 0; i < n && rd.Err == nil; i++ {
+			g := rd.Str()
+			if i == 0 {
+				info["key"] = g
+				o = tagNum(g, "g-")
+			}
+			groups = append(groups, g)
+		}
+		info["groups"] = groups
+		return o, 2, info
+	case 16:
+		return -2, 1, info // ListGroups carries nothing that identifies the call: attributed by the intercept
 	case fakekafka.FindCoordinator:
 		key := rd.Str()
 		kt := 0
@@ -524,8 +562,25 @@ func (r *run) snapshotLocked() (alive []interface{}, topics []interface{}, ctrlr
 	return alive, topics, c.Controller
 }
 
+// coordFor: the coordinator of a group id (scenarios may give individual groups their own)
+func (r *run) coordFor(key string) int {
+	if b, ok := r.sc.GCoord[key]; ok {
+		return b
+	}
+	return r.coord
+}
+
+func (r *run) groupKeys() []string {
+	ks := make([]string, 0, len(r.sc.GCoord))
+	for k := range r.sc.GCoord {
+		ks = append(ks, k)
+	}
+	sort.Strings(ks)
+	return ks
+}
+
 func (r *run) findCoordinator(req *fakekafka.Request, info trace.Event) (fakekafka.Reply, int) {
-	node := r.coord
+	node := r.coordFor(info["key"].(string))
 	if info["keytype"].(int) == 1 {
 		node = r.txn
 	}
@@ -592,8 +647,12 @@ func (r *run) answer(req *fakekafka.Request, info trace.Event) (rep fakekafka.Re
 	case fakekafka.OffsetCommit, fakekafka.OffsetFetch, fakekafka.JoinGroup, fakekafka.Heartbeat, fakekafka.SyncGroup, fakekafka.LeaveGroup:
 		g := r.cl.GroupState(info["key"].(string))
 		r.cl.Lock()
-		g.Coordinator = r.coord
+		g.Coordinator = r.coordFor(info["key"].(string))
 		r.cl.Unlock()
+	case 15:
+		return fakekafka.DescribeGroupsHandle(req, r.coordFor), 0
+	case 16:
+		return fakekafka.ListGroupsHandle(req, r.groupKeys(), r.coordFor), 0
 	case 22, 24, 25, 26:
 		r.pidSeq++
 		return fakekafka.TxnHandle(req, r.txn, r.pidSeq), 0
@@ -675,6 +734,22 @@ func (r *run) intercept(req *fakekafka.Request) *fakekafka.Reply {
 			}
 		}
 	}
+	if req.ApiKey == 16 {
+		// ListGroups carries nothing of its own: it belongs to the listgroups call in progress
+		o, leg = r.listOp, 0
+		r.listSeen++
+		leg = r.listSeen
+	}
+	if op := r.ops[o]; o > 0 && op != nil && op.Kind == "describegroups" {
+		for i, g := range op.Groups {
+			if g == info["key"] {
+				leg = 2*i + 2
+				if req.ApiKey == fakekafka.FindCoordinator {
+					leg = 2*i + 1
+				}
+			}
+		}
+	}
 	if op := r.ops[o]; o > 0 && op != nil && op.Kind == "listoffsets" {
 		for i, q := range op.Parts {
 			if q.T == info["t"] && q.P == info["p"] {
@@ -690,7 +765,7 @@ func (r *run) intercept(req *fakekafka.Request) *fakekafka.Reply {
 	}
 	ep := req.Conn.LocalAddr().String() // the endpoint the client dialled
 	ev := trace.Event{"ev": "req", "conn": cid, "broker": b, "ep": ep, "api": name, "v": int(req.Version), "corr": int(req.CorrID), "o": o, "leg": leg,
-		"t": info["t"], "p": info["p"], "key": info["key"], "keytype": info["keytype"], "n": n, "unserved": !r.canServe(req)}
+		"t": info["t"], "p": info["p"], "key": info["key"], "keytype": info["keytype"], "parts": info["parts"], "groups": info["groups"], "n": n, "unserved": !r.canServe(req)}
 	r.rec.Emit(ev)
 	if ch := r.arrived[o]; ch != nil && o > 0 {
 		select {
@@ -740,7 +815,7 @@ func (r *run) intercept(req *fakekafka.Request) *fakekafka.Reply {
 		}
 	}
 	if rep.Close || rep.None {
-		r.rec.Emit(trace.Event{"ev": "reply", "conn": cid, "broker": b, "ep": ep, "addrs": addrs, "keytype": info["keytype"], "api": name, "v": int(req.Version), "corr": int(req.CorrID), "o": o, "leg": leg,
+		r.rec.Emit(trace.Event{"ev": "reply", "conn": cid, "broker": b, "ep": ep, "addrs": addrs, "keytype": info["keytype"], "key": info["key"], "api": name, "v": int(req.Version), "corr": int(req.CorrID), "o": o, "leg": leg,
 			"cut": 0, "len": 0, "closed": rep.Close, "node": node, "n": n, "alive": alive, "topics": topics, "ctrlr": ctrlr, "ranges": []interface{}{}})
 		return &rep
 	}
@@ -749,7 +824,7 @@ func (r *run) intercept(req *fakekafka.Request) *fakekafka.Reply {
 	if rep.CutAt >= 0 && rep.CutAt < flen {
 		cut = rep.CutAt
 	}
-	rev := trace.Event{"ev": "reply", "conn": cid, "broker": b, "ep": ep, "addrs": addrs, "keytype": info["keytype"], "api": name, "v": int(req.Version), "corr": int(req.CorrID), "o": o, "leg": leg,
+	rev := trace.Event{"ev": "reply", "conn": cid, "broker": b, "ep": ep, "addrs": addrs, "keytype": info["keytype"], "key": info["key"], "api": name, "v": int(req.Version), "corr": int(req.CorrID), "o": o, "leg": leg,
 		"cut": cut, "len": flen, "closed": false, "node": node, "n": n, "alive": alive, "topics": topics, "ctrlr": ctrlr, "ranges": []interface{}{}}
 	if rep.Lazy != nil {
 		// gated replies of the group coordinator: the frame is built when the gate opens
@@ -1102,6 +1177,35 @@ func (r *run) exec(ctx context.Context, op *Op) (res result) {
 			res.code = codeOf(x.Error)
 			res.own = res.code == 25 // the coordinator does not know this member; any other broker says NOT_COORDINATOR
 		}
+	case "describegroups":
+		var x *kafka.DescribeGroupsResponse
+		x, err = c.DescribeGroups(ctx, &kafka.DescribeGroupsRequest{GroupIDs: op.Groups})
+		if err == nil && x != nil {
+			res.own = len(x.Groups) == len(op.Groups)
+			for _, g := range x.Groups {
+				if g.Error != nil {
+					res.code = codeOf(g.Error)
+				}
+				found := false
+				for _, want := range op.Groups {
+					found = found || want == g.GroupID
+				}
+				res.own = res.own && found && g.Error == nil
+				res.info += fmt.Sprintf("%s:%v ", g.GroupID, g.Error)
+			}
+		}
+	case "listgroups":
+		var x *kafka.ListGroupsResponse
+		x, err = c.ListGroups(ctx, &kafka.ListGroupsRequest{})
+		if err == nil && x != nil {
+			res.code = codeOf(x.Error)
+			keys := r.groupKeys()
+			res.own = x.Error == nil && len(x.Groups) == len(keys)
+			for _, g := range x.Groups {
+				res.own = res.own && g.Coordinator == r.coordFor(g.GroupID)
+				res.info += fmt.Sprintf("%s@%d ", g.GroupID, g.Coordinator)
+			}
+		}
 	case "findcoordinator":
 		var x *kafka.FindCoordinatorResponse
 		x, err = c.FindCoordinator(ctx, &kafka.FindCoordinatorRequest{Key: group, KeyType: kafka.CoordinatorKeyTypeConsumer})
@@ -1189,7 +1293,11 @@ func (r *run) planOf(op *Op) map[string]interface{} {
 	for _, n := range op.Names {
 		names = append(names, n)
 	}
-	return map[string]interface{}{"o": op.O, "kind": op.Kind, "t": op.T, "p": op.P, "k": op.K, "parts": parts, "names": names, "all": op.AllTopics,
+	groups := []interface{}{}
+	for _, g := range op.Groups {
+		groups = append(groups, g)
+	}
+	return map[string]interface{}{"o": op.O, "kind": op.Kind, "t": op.T, "p": op.P, "k": op.K, "parts": parts, "names": names, "groups": groups, "all": op.AllTopics,
 		"cancelAfterMs": op.CancelAfterMs, "deadlineMs": op.DeadlineMs, "expectCtx": op.ExpectCtx, "mustSucceed": op.MustSucceed, "fault": f}
 }
 
@@ -1208,6 +1316,9 @@ func (r *run) runOp(op *Op) {
 	}
 	r.cmu.Lock()
 	r.anyOp = true
+	if op.Kind == "listgroups" {
+		r.listOp, r.listSeen = op.O, 0
+	}
 	r.cmu.Unlock()
 	ev := trace.Event(r.planOf(op))
 	ev["ev"] = "opbegin"
@@ -1308,7 +1419,7 @@ func Run(sc *Script) []trace.Event {
 	}
 	r.rec.Emit(trace.Event{"ev": "cfg", "id": sc.ID, "kind": sc.Kind, "alive": ints(sc.Brokers), "boot": ints(sc.Boot), "topics": nz(topics),
 		"coord": sc.Coord, "txn": sc.Txn, "ctrlr": sc.Ctrlr, "vtab": r.vtabEvent(allBrokers(sc)), "crange": crange,
-		"ttlMs": sc.TTLMs, "idleMs": sc.IdleMs, "ops": nz(plans), "metaTopics": mt, "metaFiltered": sc.MetaTopics != nil, "down": ints(sc.DownAtStart)})
+		"ttlMs": sc.TTLMs, "idleMs": sc.IdleMs, "ops": nz(plans), "metaTopics": mt, "metaFiltered": sc.MetaTopics != nil, "down": ints(sc.DownAtStart), "noconf": sc.NoConf})
 	var bg sync.WaitGroup
 	for i := range sc.Steps {
 		s := &sc.Steps[i]
